@@ -10,6 +10,15 @@ import fnmatch
 import io
 import types
 
+from simkit import kernel
+
+
+def _syscall():
+    """A file-system call is a scheduling point for the simulated threads."""
+    sim = kernel.SIM
+    if sim is not None and sim.cur() is not None:
+        sim.yield_point('fs')
+
 
 class SimFS:
     def __init__(self, ro_root='/ro', rw_root='/rw'):
@@ -23,6 +32,7 @@ class SimFS:
 
     # ------------------------------------------------------------------ seams
     def open(self, path, mode='r', *a, **k):
+        _syscall()
         self.log.append(('open', path, mode))
         if 'w' in mode or 'a' in mode or '+' in mode:
             if path.startswith(self.ro_root + '/') or path == self.ro_root:
@@ -63,6 +73,7 @@ class SimFS:
         self.dirty.pop(path, None)
 
     def rename(self, src, dst):
+        _syscall()
         self.log.append(('rename', src, dst))
         for p in (src, dst):
             if p.startswith(self.ro_root + '/'):
@@ -116,6 +127,7 @@ class _WFile:
         fs.dirty[path] = b''
 
     def write(self, s):
+        _syscall()
         if isinstance(s, str):
             s = s.encode('latin1')
         self.buf.append(s)
@@ -124,6 +136,7 @@ class _WFile:
         return len(s)
 
     def close(self):
+        _syscall()
         self.closed = True
 
     def __enter__(self):
